@@ -59,6 +59,15 @@ func (m *Machine) isPure(fn *ssa.Function) bool {
 				if !localAddr(x.Addr, 0) {
 					pure = false
 				}
+			case *ssa.Alloc:
+				// a heap object created by the callee would be rolled back with the sub-search: not mergeable
+				if x.Heap {
+					pure = false
+				}
+			case *ssa.Convert:
+				if _, ok := x.Type().Underlying().(*types.Slice); ok {
+					pure = false
+				}
 			case *ssa.MapUpdate, *ssa.Defer, *ssa.Go, *ssa.Send, *ssa.RunDefers, *ssa.MakeClosure, *ssa.MakeMap, *ssa.MakeSlice:
 				pure = false
 			case *ssa.Call:
